@@ -33,6 +33,12 @@ func coreC08(tier string) []RunSpec {
 				out = append(out, RunSpec{Profile: "core:melt-retry-after-lost-message", Params: map[string]int{"meltretry": 1, "k": k, "fk": fk, "legacy": legacy}})
 			}
 		}
+		// a mint-side storage error at the k-th storage call of a receive / send / melt / reclaim
+		for opk := 0; opk < 4 && legacy == 0; opk++ {
+			for k := 1; k <= 8; k++ {
+				out = append(out, RunSpec{Profile: "core:mint-storage-error", Params: map[string]int{"mde": k, "mdeop": opk, "legacy": legacy}})
+			}
+		}
 		// SIG_ALL P2PK token from an untrusted mint received with swap-to-trusted: the wallet first
 		// swaps at the untrusted mint and melts the fresh proofs there
 		for k := 0; k < 2; k++ {
@@ -319,6 +325,37 @@ func runC08(rc *RunCtx) {
 				ww.op("w.remelt after lost message")
 				ww.W.WalletOp(w, ww.name("remelt."+w), nil, func(wl *wallet.Wallet) { wl.Melt(qid) })
 			}
+		} else if T.Chance("mintdberr", 1, 6) || rc.P("mde", 0) > 0 {
+			// the mint meets a storage error while it serves a wallet operation (answered with the generic
+			// error): whatever the wallet sends next - a retry included - is scanned like everything else
+			k := 1 + T.Choose("mintdberr.k", 10)
+			if v := rc.P("mde", 0); v > 0 {
+				k = v
+			}
+			opk := T.Choose("mintdberr.op", 4)
+			if v, ok := rc.Spec.Params["mdeop"]; ok {
+				opk = v
+			}
+			if opk == 0 || opk == 3 {
+				ww.forceDLEQ = true
+				ww.StepSend() // something to receive / reclaim, with DLEQ data in the token
+				ww.forceDLEQ = false
+			}
+			for _, mn := range ww.Mints {
+				ww.NextPlans = append(ww.NextPlans, &FaultPlan{Node: mn, Kind: "db_error", SeamKind: "db", Pos: k})
+			}
+			switch opk {
+			case 0:
+				ww.StepReceive()
+			case 1:
+				ww.StepSend()
+			case 2:
+				ww.StepMelt()
+			case 3:
+				ww.StepReclaim()
+			}
+			ww.NextPlans = nil
+			rc.S.Probe("c08_mint_storage_error_during_wallet_op")
 		} else if T.Chance("restore", 1, 8) {
 			// sometimes the restored wallet (whose proofs carry no DLEQ) takes over and continues
 			ww.StepRestore(T.Chance("restore.replace", 1, 2))
